@@ -303,6 +303,8 @@ def step (st : St) (ws : List String) : St × String :=
   | "run" :: _ => (st, "ok")
   | [">", "ok"] => (st, "ok")
   | [">", "q"] => (st, "ok")
+  | [">", "h", "timeout"] => (st, "FAIL timeout: an operation never returned (deadlock or endless loop)")
+  | [">", "h", "skipped-after-timeout"] => (st, "ok")
   | ">" :: "h" :: entries =>
     match entries.mapM parseEntry with
     | some es => ({ st with ops := [] }, judge st es)
